@@ -34,6 +34,36 @@ PARTS = [fn("f"), fn("g"), fn("a.b"), fn("a.deep.c"), 'new advancement(x.y) {"a"
 TICK = fn("__tick__", 'say "t";')
 
 
+def static_edits(rng, content: list, counter: list) -> dict:
+    """(round 2) what the user does INSIDE the #static folders between two builds: a new file next to an existing one, an
+    overwrite, a deletion.  `content` ([[path, text]], the static content so far) is updated in place."""
+    out: dict = {}
+    files = [c for c in content if c[1] is not None]
+    if not files:
+        return out
+    touch, remove = [], []
+    if rng.random() < 0.7:
+        counter[0] += 1
+        base = rng.choice(files)[0].rsplit("/", 1)[0]
+        new = [f"{base}/{rng.choice(['', 'later/'])}added{counter[0]}.txt", f"added {counter[0]}"]
+        touch.append(new)
+        content.append(list(new))
+    if rng.random() < 0.35:
+        victim = rng.choice(files)
+        victim[1] = victim[1] + " (edited)"
+        touch.append(list(victim))
+    if len(files) > 2 and rng.random() < 0.3:
+        victim = rng.choice(files)
+        content.remove(victim)
+        touch = [t for t in touch if t[0] != victim[0]]
+        remove.append(victim[0])
+    if touch:
+        out["touch"] = touch
+    if remove:
+        out["remove"] = remove
+    return out
+
+
 def project(rng, overrides, statics, copy_ok, tick=None, fail=None):
     parts = [p for p in PARTS if rng.random() < 0.4] or [fn("f")]
     if tick if tick is not None else rng.random() < 0.5:
@@ -73,6 +103,7 @@ def gen_history(rng) -> dict:
     builds = []
     statics: list[str] = []
     static_touch: list = []
+    counter = [0]
     for i in range(n_prefix):
         fail = rng.choice([None, None, None, "lex", "build", "header"]) if i > 0 or rng.random() < 0.3 else None
         b = project(rng, overrides, statics, copy_src is not None, fail=fail)
@@ -86,8 +117,16 @@ def gen_history(rng) -> dict:
             if len(statics) > 1:
                 touch.append(["data/minecraft/keepmc/m.txt", "vanilla override"])
             builds.append(dict(project(rng, overrides, statics, copy_src is not None), touch=touch))
-            static_touch = touch
+            static_touch = [list(t) for t in touch]
+        elif statics and rng.random() < 0.6:
+            b.update(static_edits(rng, static_touch, counter))
     last = project(rng, overrides, statics, copy_src is not None)
+    if statics and rng.random() < 0.7:
+        last.update(static_edits(rng, static_touch, counter))
+    # (round 2) the pack format may change between builds, in both directions across 48
+    for b in builds + [last]:
+        if rng.random() < 0.3:
+            b["pack_format"] = rng.choice(["26", "48", "61"])
     return dict(ns="ns", pack_format=rng.choice(["48", "48", "26"]), desc="d", out_exists=rng.random() < 0.8, init=init,
                 copy_src=copy_src, out_dotdot=rng.random() < 0.2, builds=builds, last=last, statics=statics,
                 static_touch=static_touch if statics else [])
@@ -159,21 +198,26 @@ def family_history(rng, fam: dict, light: bool) -> dict:
         builds.append(dict(src=src([c for c in cols if rng.random() < 0.5] + [fn("g")]), header=header))   # some colliders go ...
         builds.append(dict(src=src(cols + others), header=header))                                   # ... and come back
     last = dict(src=src(keep_in_last + others + [fn("g2")]), header=header)  # ... and disappear again
+    # (round 2) the user keeps working inside the static folders between the builds of this one process
+    content = [list(t) for t in fam["touch"]]
+    counter = [0]
+    for b in builds[2:] + [last]:
+        b.update(static_edits(rng, content, counter))
     return dict(ns="ns", pack_format=rng.choice(["48", "48", "26"]), desc="d", out_exists=True, init=[], copy_src=None,
                 out_dotdot=rng.random() < 0.3, builds=builds, last=last, statics=list(fam["statics"]),
-                static_touch=fam["touch"], family=fam["name"], light=light)
+                static_touch=content, family=fam["name"], light=light)
 
 
 def family_histories(rng, tier: str) -> list[dict]:
     """quick: every family once without crash enumeration (the un-interrupted run, twice, and the comparison with the build into
-    a tree holding only jmc.txt and the static content) + 2 families drawn from ck.rng with every crash point; thorough: x3 / all."""
+    a tree holding only jmc.txt and the static content) + 1 family drawn from ck.rng with every crash point; thorough: x3 / all."""
     fams = [dict(f) for f in STATIC_FAMILIES]
     hs = []
     reps = 1 if tier == "quick" else 3
     for _ in range(reps):
         for f in fams:
             hs.append(pf_fix(family_history(rng, f, light=True)))
-    heavy = rng.sample(fams, 2) if tier == "quick" else fams
+    heavy = rng.sample(fams, 1) if tier == "quick" else fams
     for f in heavy:
         hs.append(pf_fix(family_history(rng, f, light=False)))
     return hs
@@ -189,6 +233,8 @@ def pf_fix(h: dict) -> dict:
     for b in h["builds"] + [h["last"]]:
         if b.get("touch"):
             b["touch"] = [[ren(p), c] for p, c in b["touch"]]
+        if b.get("remove"):
+            b["remove"] = [ren(p) for p in b["remove"]]
         if b.get("header"):
             b["header"] = b["header"].replace('"function/', '"functions/').replace("/function/", "/functions/").replace('/function"', '/functions"')
     h["static_touch"] = [[ren(p), c] for p, c in h.get("static_touch", [])]
@@ -222,6 +268,17 @@ def fixed_histories() -> list[dict]:
         # temporary path); the injected failure at the very first deletion leaves it unobserved -> retry_override_orders
         dict(base, builds=[dict(src=A + "\n" + fn("foo.h") + "\n" + fn("bar.x.y"), header="#override foo\n#override bar")],
              last=dict(src=B + "\n" + fn("bar.x.z"), header="#override bar\n#override foo")),
+        # (round 2) the pack format crosses 48 between builds (tags/function <-> tags/functions): 48 -> 26 -> 61, and 26 -> 48
+        dict(base, builds=[dict(src=A, header=None), dict(src=A, header=None, pack_format="26")],
+             last=dict(src=B, header=None, pack_format="61")),
+        dict(base, pack_format="26", light=True, builds=[dict(src=A, header=None), dict(src=B + "\n" + TICK, header=None, pack_format="48")],
+             last=dict(src=B, header=None, pack_format="26")),
+        # (round 2) one process, the same #static set in every build, the user edits the static folder in between
+        dict(base, light=True, statics=["keep"], static_touch=[["data/ns/keep/a.txt", "edited"], ["data/ns/keep/new.txt", "new"], ["data/ns/keep/sub/l.txt", "l"]],
+             builds=[dict(src=A, header=None),
+                     dict(src=A, header='#static "keep"', touch=[["data/ns/keep/a.txt", "precious"], ["data/ns/keep/old.txt", "old"]]),
+                     dict(src=B, header='#static "keep"', touch=[["data/ns/keep/new.txt", "new"], ["data/ns/keep/a.txt", "edited"]])],
+             last=dict(src=A, header='#static "keep"', touch=[["data/ns/keep/sub/l.txt", "l"]], remove=["data/ns/keep/old.txt"])),
         # a failed compile and a failed deletion in between
         dict(base, builds=[dict(src=A, header=None), dict(src='function g() { say "g" }', header=None),
                            dict(src=A, header=None, oserror_path="data/ns/function")], last=dict(src=B, header=None)),
@@ -232,8 +289,8 @@ def fixed_histories() -> list[dict]:
 
 def rcase_term(job, b_rec: dict, pre_snap, mid_snap, oracle_snap) -> str:
     """(re-)run b_rec of job, compared with oracle_snap."""
-    ns, pf = job.get("ns", "ns"), job.get("pack_format", "48")
     f = b_rec["facts"]
+    ns, pf = job.get("ns", "ns"), f.get("pack_format") or job.get("pack_format", "48")
     ff = f.get("ff") or ("function" if float(pf) >= 48 else "functions")
     names = c10.cert_names(b_rec["before"], ns)
     nm = dict(names)
